@@ -8,7 +8,23 @@ import (
 
 func inMod(p string) bool { return strings.HasPrefix(p, core.Mod) }
 
+// packages on the loading/validation path
+func frontScope(p string) bool {
+	for _, s := range []string{"/pkg/dsl", "/pkg/packaging", "/internal/cmd", "/internal/validation"} {
+		if strings.HasPrefix(p, core.Mod+s) {
+			return true
+		}
+	}
+	return false
+}
+
+func dslValidationFiles(f string) bool {
+	return strings.Contains(f, "/pkg/dsl/validation") || strings.HasSuffix(f, "/pkg/dsl/yaml.go")
+}
+
 func init() {
 	reg("C11", ruleValidateBeforeWrite, ruleWhoMayWrite, ruleE1(inMod, "E1"), ruleE2(inMod, "E2"), ruleE5(inMod, "E5"))
-	reg("C12", ruleWriteIfNeeded, ruleWhoMayWrite)
+	reg("C09", rulePassOrder, ruleVisitorCoverage("VisitorWithContext.VisitChildren", "V1", "V2", 30), ruleVisitorCoverage("defaultRewriteImpl", "V3", "V4", 30), ruleAllModelsValidated, rulePrunes(dslValidationFiles, "V5", 20),
+		ruleE1(frontScope, "E1"), ruleE2(frontScope, "E2"), ruleE5(frontScope, "E5"))
+	reg("C12", ruleMapOrder, ruleSinkSort, ruleCommutativeCallbacks, ruleNoNondeterminism, ruleWriteIfNeeded, ruleWhoMayWrite)
 }
